@@ -986,7 +986,9 @@ fn parse_json_filter(input: &[u8], output: &mut [u8]) -> Result<(usize, usize), 
             eat_colon_with_whitespace(input, &mut inpos)?;
             verify_char(input, b'[', &mut inpos)?;
 
-            let mut count: u16 = 1; // the tag letter itself counts
+            // the tag letter itself counts (a count that does not fit the u16 field
+            // makes the section too large, which is refused below)
+            let mut count: usize = 1;
             loop {
                 eat_whitespace_and_commas(input, &mut inpos);
                 if peek(input, inpos)? == b']' {
@@ -1009,7 +1011,7 @@ fn parse_json_filter(input: &[u8], output: &mut [u8]) -> Result<(usize, usize), 
             }
 
             // write count
-            put(output, countindex, count.to_ne_bytes().as_slice())?;
+            put(output, countindex, (count as u16).to_ne_bytes().as_slice())?;
         }
         // the section length, and every offset, count and string length in it, are
         // u16 fields (and are all bounded by the section length)
